@@ -428,6 +428,12 @@ def collapse_one(
         new_ents.append(new_ent)
         inst.ent_ids[old_ent.id] = new_ent.id
         id_to_ent[old_ent.id] = new_ent
+        # Adding a node to the map already picked an unused node ID for it. That is the remapped
+        # ID, record it so that references from other entities follow the node.
+        try:
+            inst.node_ids[int(old_ent['nodeid'])] = int(new_ent['nodeid'])
+        except ValueError:
+            pass
 
         if visgroup is not False:
             new_ent.visgroup_ids = {
@@ -524,6 +530,10 @@ def collapse_one(
                 elif (classname, key) not in _UNKNOWN_KV:
                     LOGGER.warning('angle_pitch should only be applied to pitch, not {}.{}', classname, key)
                     _UNKNOWN_KV.add((classname, key))
+                continue
+            # The node's own ID was remapped when it was added to the map. Doing that a second time
+            # would hand links an ID that the node then doesn't keep.
+            elif kv.type is ValueTypes.TARG_NODE_SOURCE and folded == 'nodeid':
                 continue
             # Instance fixup commands shouldn't exist here.
             elif kv.type is ValueTypes.INST_VAR_REP:
